@@ -10,21 +10,21 @@ CHECKS = {
     "C13": (
         "translation_validation",
         "bounded-exhaustive enumeration of (grammar, lexer, builder settings) cases, each compiled by the real compile-time builders + rustc and compared with the run-time pipeline on every input up to a length",
-        "The ctrt crate's build script runs the real CTLexerBuilder / CTParserBuilder of the working tree over: the four yacc kinds x two recoverers on two base grammars, every single deviation (thorough: the full product) of serialisation format, Rust edition (2015/2018/2021) and visibility (private, pub, pub(crate), pub(super), pub(self), pub(in path)), a %parse-param case, a family of grammars (empty-production idioms, operator skeletons, the seed grammars) whose generated actions are observers (each action returns an S-expression built from $1..$n with Ok / Err lexemes, $span, $lexer.span_str and a literal $$), a lexer-centred case (flags in the %grmtools section, exclusive start state with push / pop, skip rules, non-ASCII token name) a lexer-flag family (each of seven flags set to its non-default value once through the %grmtools section and once through the builder) and the observer-action grammars again with every multi-production rule written in two pieces (A: p1; ...; A: p2 | p3; - productions of one rule not numbered consecutively). A case on which the real builders fail, or whose generated module rustc rejects, is compared with the run-time pipeline's verdict on the same sources (a verdict, not a build failure of the harness). rustc compiles all generated modules; for every module and every input of up to 3-5 characters over the case's alphabet the generated lexer and parser are compared with LRNonStreamingLexerDef::from_str + set_rule_ids and RTParserBuilder on the same sources: same lexemes, same R_* / N_* constants and token_epp, same value (generic tree, or observer S-expression against run-time recording closures), same errors with the same repair sets. A syntactic inventory of every generated parser fails closed on any shared mutable state other than the one OnceLock.",
+        "The ctrt crate's build script runs the real CTLexerBuilder / CTParserBuilder of the working tree over: the four yacc kinds x two recoverers on two base grammars, every single deviation (thorough: the full product) of serialisation format, Rust edition (2015/2018/2021) and visibility (private, pub, pub(crate), pub(super), pub(self), pub(in path)), a %parse-param case, a family of grammars (empty-production idioms, operator skeletons, the seed grammars) whose generated actions are observers (each action returns an S-expression built from $1..$n with Ok / Err lexemes, $span, $lexer.span_str and a literal $$), a lexer-centred case (flags in the %grmtools section, exclusive start state with push / pop, skip rules, non-ASCII token name) a lexer-flag family (each of seven flags set to its non-default value once through the %grmtools section and once through the builder) the base grammars with every token declared %avoid_insert, and the observer-action grammars again with every multi-production rule written in two pieces (A: p1; ...; A: p2 | p3; - productions of one rule not numbered consecutively). A case on which the real builders fail, or whose generated module rustc rejects, is compared with the run-time pipeline's verdict on the same sources (a verdict, not a build failure of the harness). rustc compiles all generated modules; for every module and every input of up to 3-5 characters over the case's alphabet the generated lexer and parser are compared with LRNonStreamingLexerDef::from_str + set_rule_ids and RTParserBuilder on the same sources: same lexemes, same R_* / N_* constants and token_epp, same value (generic tree, or observer S-expression against run-time recording closures), same errors with the same repair sets. A syntactic inventory of every generated parser fails closed on any shared mutable state other than the one OnceLock.",
         "rustc, quote, syn, prettyplease are trusted. Eco cannot be built at compile time. Later errors are compared only while both sides applied the same (arbitrary) first repair.",
         "DESIGN.md 3/C13",
     ),
     "C15": (
         "model_checking",
         "exhaustive enumeration of hash-map iteration orders (process-level hash seed owned through a getrandom shim, seeds enumerated until every permutation of every observable map occurred) x specifications; digests of all public queries and of generated code compared across processes; thread schedules of first use explored with shuttle in the ctrt crate",
-        "The harness re-executes itself under 48 (thorough 256) different, owned hash seeds. In each process every specification (a declaration-rich grammar in three yacc kinds incl. Eco with 3-4 implicit tokens, 3 %avoid_insert / precedence / %epp tokens, states with 3 outgoing edges and several conflicts; every grammar of a universe; the seed grammars; families F-gc, F-lalr4 and part of F-pager: tables whose construction strands states or splits off several states while re-processing, i.e. the places where the table construction walks hash maps of edges) is turned into grammar, state graph and table on a fresh thread, and three grammar/lexer pairs are run through the real compile-time builders. The digest of the complete query dump (conflicts as a set) and of the generated files must be identical in all processes. For every randomly seeded map reachable through the public API (ast.implicit_tokens, avoid_insert, precs, epp, graph edges of 3-edge states) the iteration orders seen are recorded and the run is only reported exhaustive when every permutation of every such map occurred. Thread schedules: one real generated parser module is re-bound at build time from ::std::sync::OnceLock to a stand-in with the same API whose lock operations are shuttle scheduling points; shuttle's depth-first scheduler explores ALL interleavings of 3 threads each calling parse twice (first + cached use; 4666 schedules) and of 2 threads with an extra scheduling point between the fast-path look and the lock (659 schedules): every thread must get the sequential result and the parser data must be reconstituted exactly once per execution.",
+        "The harness re-executes itself under 48 (thorough 256) different, owned hash seeds. In each process every specification (a declaration-rich grammar in three yacc kinds incl. Eco with 3-4 implicit tokens, 3 %avoid_insert / precedence / %epp tokens, states with 3 outgoing edges and several conflicts; every grammar of a universe; the seed grammars; families F-gc, F-lalr4 and part of F-pager: tables whose construction strands states or splits off several states while re-processing, i.e. the places where the table construction walks hash maps of edges) is turned into grammar, state graph and table on a fresh thread, three grammar/lexer pairs are run through the real compile-time builders, and a token map with names that differ only in case (plus a rename map) through the token-map builder. The digest of the complete query dump (conflicts as a set) and of the generated files must be identical in all processes. For every randomly seeded map reachable through the public API (ast.implicit_tokens, avoid_insert, precs, epp, graph edges of 3-edge states) the iteration orders seen are recorded and the run is only reported exhaustive when every permutation of every such map occurred. Thread schedules: one real generated parser module is re-bound at build time from ::std::sync::OnceLock to a stand-in with the same API whose lock operations are shuttle scheduling points; shuttle's depth-first scheduler explores ALL interleavings of 3 threads each calling parse twice (first + cached use; 4666 schedules) and of 2 threads with an extra scheduling point between the fast-path look and the lock (659 schedules): every thread must get the sequential result and the parser data must be reconstituted exactly once per execution.",
         "Orders of maps that are never exposed cannot be observed (same seeds run). std::sync::OnceLock is trusted.",
         "DESIGN.md 3/C15",
     ),
     "C18": (
         "model_checking",
         "breadth-first search over histories of {edit grammar, edit lexer, change one builder option, build} executed on the real builders (one child process per build), with canonical-state de-duplication and a clean-build differential oracle",
-        "State = grammar version (6: two token sets, other productions, conflicts, syntax error, warning), lexer version (4: two valid, invalid, token missing), eleven builder options, contents and logical modification times of the two generated files. All histories of up to 4 events (thorough 6, with the edit-in-the-same-tick deviation) and up to 3 (4) builds are explored breadth-first, de-duplicated on the canonical state, each build executed by the real CTParserBuilder / CTLexerBuilder in its own process (both as two separate steps and as the lexer builder driving the parser builder). After every build: outcome and generated files (timestamps blanked) must equal those of a clean build of the same sources and settings in an empty directory; when the clean build fails nothing of an earlier version may be left; regenerated() must be false and the file untouched exactly when neither source nor settings changed since the last successful build; an identical lexer output must not be rewritten. Phase 2 starts from every (grammar, lexer) pair with the reporting options switched off, and from a 220-token grammar / lexer pair whose recorded settings string is several kilobytes long, and explores build ; one change ; build, so that caches written under other settings are reached.",
+        "State = grammar version (6: two token sets, other productions, conflicts, syntax error, warning), lexer version (4: two valid, invalid, token missing), eleven builder options, contents and logical modification times of the two generated files. All histories of up to 4 events (thorough 6, with the edit-in-the-same-tick deviation) and up to 3 (4) builds are explored breadth-first, de-duplicated on the canonical state, each build executed by the real CTParserBuilder / CTLexerBuilder in its own process (both as two separate steps and as the lexer builder driving the parser builder). After every build: outcome and generated files (timestamps blanked) must equal those of a clean build of the same sources and settings in an empty directory; when the clean build fails nothing of an earlier version may be left; regenerated() must be false and the file untouched exactly when neither source nor settings changed since the last successful build; an identical lexer output must not be rewritten. Phase 2 starts from every (grammar, lexer) pair with the reporting options switched off, and from a 220-token grammar / lexer pair whose recorded settings string is several kilobytes long, with the edits that land in the same tick as the generated file (equal modification times) included, and explores build ; one change ; build, so that caches written under other settings are reached.",
         "Modification times are logical and set by the harness (the builders only read them); clocks running backwards are out of scope.",
         "DESIGN.md 3/C18",
     ),
@@ -38,7 +38,7 @@ CHECKS = {
     "C20": (
         "model_checking",
         "exhaustive enumeration of a grammar universe x {u8,u16,u32} plus boundary families around 255 / 65535 built in watched child processes; sizes, indices, query dumps and parses compared across widths",
-        "Every grammar of the quick universe is built in the three widths and the complete query dump (grammar, table, state graph) and all short parses must agree. Eight boundary families (c rules, c tokens, c productions, one production of c symbols, an Eco production whose compiled length - symbols plus implicit-token references - is c while a longer source production stays short, exactly c LR states, a lexer of c rules, a lexer of c rules whose last 12 have no name) for c = 250..260 (thorough also 65530..65540) are built in every width inside a watched child: either the build succeeds, reports exactly the model's sizes, hands out only in-range indices and agrees with the u32 build, or it panics with one of the documented refusals; acceptance must be monotone in the width. Anything else (other panic, hang, wrapped size) is a violation.",
+        "Every grammar of the quick universe is built in the three widths and the complete query dump (grammar, table, state graph) and all short parses must agree. Nine boundary families (c rules, c tokens, c productions, one production of c symbols, an Eco production whose compiled length - symbols plus implicit-token references - is c while a longer source production stays short, an Eco grammar with c productions in total (implicit rules included), exactly c LR states, a lexer of c rules, a lexer of c rules whose last 12 have no name) for c = 250..260 (thorough also 65530..65540) are built in every width inside a watched child: either the build succeeds, reports exactly the model's sizes, hands out only in-range indices and agrees with the u32 build, or it panics with one of the documented refusals; acceptance must be monotone in the width. Anything else (other panic, hang, wrapped size) is a violation.",
         "State numbers may differ between widths only as far as known finding C20-b allows (identical after canonical renumbering). u32 boundaries are out of reach.",
         "DESIGN.md 3/C20",
     ),
@@ -52,7 +52,7 @@ CHECKS = {
     "C11": (
         "model_checking",
         "bounded-exhaustive enumeration of abstract lex specifications x renderings; built definition compared field by field and by lexing behaviour with the abstract specification",
-        "(a) every rule of 1-2 (thorough 3) atoms from a 19-atom menu covering every escape class (ordinary, regex-meta, lex-special, class escapes, \\x41, \\b, multi-byte next to an escape, escaped blank, characters that are white space to Unicode but not to lex: NBSP plain and escaped, U+3000) x every optional-escape rendering x both name quotings x with/without a start-state prefix x posix_escapes on/off x with/without a %grmtools section: the built rule must lex every string of <= 3 symbols over a 16-symbol alphabet exactly as the canonical regular expression of the abstract rule does; (b) two-rule specifications over every start-state prefix x target operation x named/skip, rendered with/without section, both quotings, trailing blanks, whole-line comments, via from_str and new_with_options: rules in source order with the written name, start states, target, regex text, distinct ids, declared start states; (c) all 32 settings of five flags given through the section and through new_with_options against a section that says the opposite, observed through behaviour; (d) the span of every rule name and start-state name must slice exactly that name out of the text the user wrote, and the span of each of eleven kinds of error must lie on the offending line, with and without a %grmtools section.",
+        "(a) every rule of 1-2 (thorough 3) atoms from a 20-atom menu (incl. '>', which closes a start-state list) covering every escape class (ordinary, regex-meta, lex-special, class escapes, \\x41, \\b, multi-byte next to an escape, escaped blank, characters that are white space to Unicode but not to lex: NBSP plain and escaped, U+3000) x every optional-escape rendering x both name quotings x with/without a start-state prefix x posix_escapes on/off x with/without a %grmtools section: the built rule must lex every string of <= 3 symbols over a 17-symbol alphabet exactly as the canonical regular expression of the abstract rule does; (b) two-rule specifications over every start-state prefix x target operation x named/skip, rendered with/without section, both quotings, trailing blanks, whole-line comments, via from_str and new_with_options: rules in source order with the written name, start states, target, regex text, distinct ids, declared start states; (c) all 32 settings of five flags given through the section and through new_with_options against a section that says the opposite, observed through behaviour; (d) the span of every rule name and start-state name must slice exactly that name out of the text the user wrote, and the span of each of eleven kinds of error must lie on the offending line, with and without a %grmtools section.",
         "The denotation of every atom is written down by hand in the regex crate's syntax. Regex semantics themselves are the regex crate's.",
         "DESIGN.md 3/C11",
     ),
@@ -66,14 +66,14 @@ CHECKS = {
     "C12": (
         "model_checking",
         "bounded-exhaustive enumeration of input strings (all strings over a lexical-class alphabet up to a length; context prefix x all short strings; all single edits of seeds) through every parser entry point in watched child processes",
-        "For each of nine entry points (ASTWithValidityInfo::new + YaccGrammar::new for the five yacc kinds, ASTWithValidityInfo/YaccGrammar::from_str, LRNonStreamingLexerDef::from_str, GrmtoolsSectionParser::parse optional/required): every string of up to 3 (thorough 5) symbols over a 39-symbol alphabet with a representative of every lexical class incl. multi-byte characters and every class of white space the parsers distinguish (blank, tab, LF, CR, VT, FF, NEL, line separator, no-break space, left-to-right mark); every one of ~50 context prefixes followed by every string of up to 2 (3) symbols; every truncation and every single-character deletion / substitution / insertion of the seed specifications (hand-written ones - among them a Grmtools grammar whose rules are written in several pieces with a differently spelt type - and the repository's examples); decimal strings around 2^8, 2^16, 2^32, 2^64, 2^128 in every numeric position. Oracle: returns within the limit, no panic, a value or a non-empty error list, every span of every error and warning within the text and on character boundaries, and the diagnostic formatter renders it.",
+        "For each of nine entry points (ASTWithValidityInfo::new + YaccGrammar::new for the five yacc kinds, ASTWithValidityInfo/YaccGrammar::from_str, LRNonStreamingLexerDef::from_str, GrmtoolsSectionParser::parse optional/required): every string of up to 3 (thorough 5) symbols over a 39-symbol alphabet with a representative of every lexical class incl. multi-byte characters and every class of white space the parsers distinguish (blank, tab, LF, CR, VT, FF, NEL, line separator, no-break space, left-to-right mark); every one of ~50 context prefixes followed by every string of up to 2 (3) symbols; every truncation and every single-character deletion / substitution / insertion of the seed specifications (hand-written ones - among them a Grmtools grammar whose rules are written in several pieces with a differently spelt type, and the dangling-else idiom with its precedence declaration forgotten - and the repository's examples); decimal strings around 2^8, 2^16, 2^32, 2^64, 2^128 in every numeric position. Oracle: returns within the limit, no panic, a value or a non-empty error list, every span of every error and warning within the text and on character boundaries, and the diagnostic formatter renders it.",
         "Pairs of edits and longer free strings are outside the bound. A timeout is a verdict only after the single input was re-run alone with a longer limit.",
         "DESIGN.md 3/C12",
     ),
     "C19": (
         "model_checking",
         "exhaustive enumeration of all strings up to a length bound x all chunkings x all offsets x all spans against a naive line/column reference",
-        "Every string of up to 7 (thorough 12) characters over {a, two-byte e-acute, LF, CR}, every way of feeding it to the cache in up to four pieces (empty pieces included; also with every offset of the text fed so far looked up after each piece), every character-boundary offset and every span on character boundaries: line number, line start, line/column and line extent are compared with a three-line naive reference and nothing may panic; offsets beyond the text must be refused. For the shorter strings the same is done through LRNonStreamingLexer::{line_col, span_lines_str} (line_col of every span must also equal the cache's own answer for its two ends) and through LexParseError::pp for a real lexing error and a real parsing error placed at every position.",
+        "Every string of up to 7 (thorough 12) characters over {a, two-byte e-acute, LF, CR}, every way of feeding it to the cache in up to four pieces (empty pieces included; also with every offset of the text fed so far looked up after each piece), every character-boundary offset and every span on character boundaries; plus 840 texts of 1..70 lines (three line bodies, LF / CR LF, last line terminated or not) fed whole and in two pieces: line number, line start, line/column and line extent are compared with a three-line naive reference and nothing may panic; offsets beyond the text must be refused. For the shorter strings the same is done through LRNonStreamingLexer::{line_col, span_lines_str} (line_col of every span must also equal the cache's own answer for its two ends) and through LexParseError::pp for a real lexing error and a real parsing error placed at every position.",
         "A non-empty span ending exactly on a line start may or may not include that next line (the repository's own test pins 'includes'); the LF of a CR LF pair may carry the CR's column or the next.",
         "DESIGN.md 3/C19",
     ),
